@@ -44,7 +44,8 @@ def generate(r, tier):
     sc["hand"] = [kgen.handwritten(r, prog, olds=olds, sane=r.random() < 0.7) for _ in range(r.randint(1, 2))]
     sc["tool_hist"] = [ops.gen_history(r, prog, r.randint(0, 8), weights={"read": 0, "save": 0, "load": 0, "restart": 0, "load_hand": 0}, sane=0.9)
                        for _ in range(r.randint(1, 2))]
-    sc["initial"] = r.choice(["absent", "tool-same", "tool-same", "tool-same", "tool-old", "tool-deprecated", "hand"])
+    sc["initial"] = r.choice(["absent", "tool-same", "tool-same", "tool-same", "tool-old", "tool-deprecated", "hand", "tool-extra"])
+    sc["extra_lines"] = r.choice(["CONFIG_GONE_OPTION=y\n", "CONFIG_GONE_LVL=7\n# CONFIG_GONE_B is not set\n", 'CONFIG_GONE_NAME="x"\n'])
     sc["prog_old"] = None
     if sc["initial"] == "tool-old":
         # the current program is the evolved one
@@ -117,6 +118,30 @@ class Monitor:
             marked = False
         return out
 
+    @staticmethod
+    def unknown_on_disk(k, text):
+        """Names assigned by the file (outside its deprecated block) that are neither options of the tree nor deprecated aliases."""
+        out = []
+        in_dep = False
+        dep = k.deprecated_options
+        for ln in text.splitlines():
+            s = ln.strip()
+            if s.startswith("# Deprecated options for backward compatibility"):
+                in_dep = True
+            elif s.startswith("# End of deprecated options"):
+                in_dep = False
+            if in_dep or not s.startswith("CONFIG_") or "=" not in s:
+                continue
+            name = s[len("CONFIG_"):].split("=", 1)[0]
+            if not name or not all(c.isalnum() or c == "_" for c in name):
+                continue
+            if name in k.syms and k.syms[name].nodes:
+                continue
+            if dep is not None and dep.get_new_option(name) is not None:
+                continue
+            out.append(name)
+        return out
+
     def value_conflict(self, k, disk_text, mem_text):
         """A sharper class than the file's origin: the recorded byte-vs-value findings are about files whose *assignments agree*
         with the evaluated configuration (only layout, omitted or extra lines differ).  An option that both the disk and the
@@ -178,9 +203,11 @@ class Monitor:
         if disk_text is None:
             return "file-missing"
         conflict = self.value_conflict(k, disk_text, mem_text)
+        if self.unknown_on_disk(k, disk_text):
+            # independent of the session's own record (Kconfig.missing_syms): a file that assigns options the tree does not
+            # define is never what a save would write, and the shipped code never reports such a session clean
+            return "unknown-symbols-on-disk"
         if not self.m.disk_tool_written:
-            if k.missing_syms:
-                return "hand-edited-file-on-disk/unknown-symbols-ignored"
             return "hand-edited-file-on-disk" + conflict
         if self.m.disk_origin == "tool-old":
             return "file-of-older-tree-on-disk" + conflict
